@@ -1050,8 +1050,9 @@ def correspondence(ctx):
                                   outcome=compare(h, side, n, ids, outs[base + 1])[0][:300]))
     # real transports (pipes, socket pairs), real threads: a few runs with ceilings
     rlines, rres = [], []
-    for transport, scenario in real_cases():
-        res = run_real(transport, scenario)           # Infrastructure propagates: exit 2
+    rcases = real_cases()
+    for case in rcases:
+        res = run_real_case(case)                     # Infrastructure propagates: exit 2
         rres.append(res)
         rlines.append("life run " + " ".join(res["tokens"]))
     try:
@@ -1059,17 +1060,18 @@ def correspondence(ctx):
     except DriverError as ex:
         c.error = str(ex)
         return c
-    for res, line, got in zip(rres, rlines, routs):
+    for case, res, line, got in zip(rcases, rres, rlines, routs):
         c.evaluations += 1
         c.count("real-transport:%s" % res["transport"])
         c.count("real-scenario:%s" % res["scenario"])
+        if case.get("fault"):
+            c.count("real-io-error:%s:%s@%d" % (case["fault"]["op"], case["fault"]["errno"], case["fault"]["after"]))
         if res["scenario"] == "abrupt_holding_callback":
             c.count("real-objects-held-for-peer-before-the-end", res.get("held_before") or 0)
         impl, mod = real_view(res), real_model_view(got)
-        c.signatures.add("real|%s|%s|%s" % (res["transport"], res["scenario"], impl))
+        c.signatures.add("real|%s|%s|%s|%s" % (res["transport"], res["scenario"], case.get("fault"), impl))
         if impl != mod or real_oracle(res):
-            c.disagreements.append(dict(case=dict(kind="real", transport=res["transport"], scenario=res["scenario"]),
-                                        impl=impl, model=mod, detail=[dict(ops=line, observed=dict(
+            c.disagreements.append(dict(case=case, impl=impl, model=mod, detail=[dict(ops=line, observed=dict(
                                             (k, v) for k, v in res.items() if k != "tokens"))]))
     complete = not c.distribution.get("skipped:time-budget")
     c.exhaustive = bool(complete and thorough)       # thorough: also every byte offset of every packet
@@ -1128,6 +1130,16 @@ class RealSvc(rpyc.Service):
 
     def exposed_cb(self):
         return 7
+
+    def exposed_call_held_then_slow(self):
+        """B's handler: once told to go, call the callback object A lent (a request towards A), then block"""
+        self.box["started"].set()
+        self.box["go"].wait(REAL_CEILING * 3)
+        try:
+            self.box["held"][0]()
+        finally:
+            self.box["release"].wait(REAL_CEILING * 3)
+        return 8
 
 
 def real_pair(transport):
@@ -1241,6 +1253,226 @@ def run_real(transport, scenario):
     return res
 
 
+class FaultSock(object):
+    """a real socket under the REAL SocketStream whose recv()/send() fail with a given OSError once `after` bytes have
+    gone through since it was armed (a partial transfer first when `after` > 0); everything else is the real socket's"""
+    def __init__(self, real):
+        self._real = real
+        self._plan = None
+        self._count = 0
+        self.fired = 0
+
+    def arm(self, op, after, err):
+        self._count = 0
+        self._plan = (op, after, err)
+
+    def _fail(self, err):
+        self.fired += 1
+        raise OSError(err, os.strerror(err))       # (the interpreter picks the subclass: ConnectionResetError, ... or plain OSError)
+
+    def recv(self, n, *a):
+        p = self._plan
+        if p and p[0] == "recv":
+            if self._count >= p[1]:
+                self._fail(p[2])
+            data = self._real.recv(min(n, p[1] - self._count), *a)
+            self._count += len(data)
+            return data
+        return self._real.recv(n, *a)
+
+    def send(self, data, *a):
+        p = self._plan
+        if p and p[0] == "send":
+            if self._count >= p[1]:
+                self._fail(p[2])
+            k = self._real.send(data[:p[1] - self._count], *a)
+            self._count += k
+            return k
+        return self._real.send(data, *a)
+
+    def __getattr__(self, name):
+        return getattr(self._real, name)
+
+
+class FaultOs(object):
+    """stands in for the `os` module inside rpyc.core.stream: read()/write() on ONE descriptor fail like FaultSock's
+    recv()/send(); everything else (other descriptors, other functions) is the real os"""
+    def __init__(self):
+        self._plan = None          # (op, fd, after, err)
+        self._count = 0
+        self.fired = 0
+
+    def arm(self, op, fd, after, err):
+        self._count = 0
+        self._plan = (op, fd, after, err)
+
+    def read(self, fd, n):
+        p = self._plan
+        if p and p[0] == "recv" and fd == p[1]:
+            if self._count >= p[2]:
+                self.fired += 1
+                raise OSError(p[3], os.strerror(p[3]))
+            data = os.read(fd, min(n, p[2] - self._count))
+            self._count += len(data)
+            return data
+        return os.read(fd, n)
+
+    def write(self, fd, data):
+        p = self._plan
+        if p and p[0] == "send" and fd == p[1]:
+            if self._count >= p[2]:
+                self.fired += 1
+                raise OSError(p[3], os.strerror(p[3]))
+            k = os.write(fd, data[:p[2] - self._count])
+            self._count += k
+            return k
+        return os.write(fd, data)
+
+    def __getattr__(self, name):
+        return getattr(os, name)
+
+
+def run_real_fault(transport, scenario, fault):
+    """A's REAL stream meets an I/O error (recv/send resp. os.read/os.write raising OSError(errno)) at a byte offset
+    of the message in transit.  scenario: io_error_in_wait (A waits for the reply that is hit), io_error_in_serve_all
+    (A's serve_all reads the reply that is hit), io_error_replying (A's serve_all answers B's callback request; the
+    send is hit; A holds that callback object for B)."""
+    import errno as errno_mod
+    import rpyc.core.stream as stream_mod
+    from rpyc.core.stream import PipeStream, SocketStream
+    err = getattr(errno_mod, fault["errno"])
+    box = dict(hooks={"A": 0, "B": 0}, started=threading.Event(), release=threading.Event(), go=threading.Event(),
+               held=[])
+    fos = None
+    saved_os = stream_mod.os
+    try:
+        if transport == "socket":
+            a, b = socket.socketpair()
+            fsock = FaultSock(a)
+            stra, strb = SocketStream(fsock), SocketStream(b)
+            arm = lambda: fsock.arm(fault["op"], fault["after"], err)  # noqa
+            fired = lambda: fsock.fired  # noqa
+        else:
+            stra, strb = PipeStream.create_pair()
+            fos = FaultOs()
+            stream_mod.os = fos
+            fd = stra.incoming.fileno() if fault["op"] == "recv" else stra.outgoing.fileno()
+            arm = lambda: fos.arm(fault["op"], fd, fault["after"], err)  # noqa
+            fired = lambda: fos.fired  # noqa
+    except Exception as ex:  # noqa
+        stream_mod.os = saved_os
+        raise Infrastructure("cannot create a %s pair: %r" % (transport, ex))
+    res = dict(transport=transport, scenario=scenario, fault=fault, a_out=None, serve_all_returned=None, wait_out=None)
+    threads = []
+    toks = []
+    try:
+        sa, sb = RealSvc(box, "A"), RealSvc(box, "B")
+        ca = sa._connect(Channel(stra), {"sync_request_timeout": REAL_CEILING * 2})
+        cb = sb._connect(Channel(strb), {"sync_request_timeout": REAL_CEILING * 2})
+        tb = threading.Thread(target=lambda: _quiet(cb.serve_all), daemon=True, name="real-B")
+        tb.start()
+        threads.append(tb)
+        root = ca.root
+        replying = scenario == "io_error_replying"
+        if replying:
+            root.hold(sa.exposed_cb)                      # A holds an object for B
+            target = root.call_held_then_slow
+        else:
+            target = root.slow
+        in_wait = scenario == "io_error_in_wait"
+        ar = rpyc.async_(target)()                        # the pending request
+        toks.append("is0:F")
+        if not box["started"].wait(REAL_CEILING):
+            raise Infrastructure("side B never started the handler")
+        try:
+            res["held_before"] = len(ca._local_objects._dict)
+        except AttributeError:
+            res["held_before"] = None
+
+        def a_body():
+            try:
+                if in_wait:
+                    try:
+                        ar.wait()
+                        res["a_out"] = "v"
+                    except EOFError:
+                        res["a_out"] = "eof"
+                else:
+                    ca.serve_all()
+                    res["serve_all_returned"] = True
+            except BaseException as ex:  # noqa
+                res["a_out"] = "other:" + type(ex).__name__
+        arm()                                             # from now on the transport fails at the chosen offset
+        ta = threading.Thread(target=a_body, daemon=True, name="real-A")
+        ta.start()
+        threads.append(ta)
+        if in_wait:
+            toks.append("w0:Fe")
+        if replying:
+            box["go"].set()                               # B calls A back: A's reply meets the failure
+            toks.append("frFe")
+        else:
+            box["release"].set()                          # B answers: A's read of that reply meets the failure
+            toks.append("ese")
+        res["closed_in_time"] = wait_until(lambda: ca.closed)
+        res["a_thread_ended"] = wait_until(lambda: not ta.is_alive())
+        res["fault_fired"] = fired()
+        if not in_wait:
+            toks.append("sxe")
+
+        def w_body():
+            try:
+                ar.wait()
+                res["wait_out"] = "v"
+            except EOFError:
+                res["wait_out"] = "eof"
+            except BaseException as ex:  # noqa
+                res["wait_out"] = "other:" + type(ex).__name__
+        if in_wait:
+            res["wait_out"] = res["a_out"]
+        else:
+            tw = threading.Thread(target=w_body, daemon=True, name="real-W")
+            tw.start()
+            threads.append(tw)
+            wait_until(lambda: not tw.is_alive())
+            toks.append("w0:Fe")
+        res["closed"] = bool(ca.closed)
+        res["hooks"] = box["hooks"]["A"]
+        try:
+            res["tables"] = (len(ca._local_objects._dict), len(ca._proxy_cache), len(ca._request_callbacks))
+        except AttributeError:
+            res["tables"] = None
+        try:
+            ca.close()
+            res["close_again"] = None
+        except BaseException as ex:  # noqa
+            res["close_again"] = type(ex).__name__
+        toks.append("cb")
+        res["hooks_after"] = box["hooks"]["A"]
+    finally:
+        box["release"].set()
+        box["go"].set()
+        for st in (stra, strb):
+            try:
+                st.close()
+            except Exception:  # noqa
+                pass
+        for th in threads:
+            th.join(REAL_CEILING)
+        stream_mod.os = saved_os
+        box["held"] = []
+    if not res.get("fault_fired") and res.get("closed_in_time") is not None:
+        raise Infrastructure("the injected %s failure was never reached (%s/%s)" % (fault["op"], transport, scenario))
+    res["tokens"] = toks
+    return res
+
+
+def run_real_case(case):
+    if case.get("fault"):
+        return run_real_fault(case["transport"], case["scenario"], case["fault"])
+    return run_real(case["transport"], case["scenario"])
+
+
 def _quiet(fn):
     try:
         fn()
@@ -1267,9 +1499,14 @@ def real_model_view(mline):
 def real_oracle(res):
     """the statement on one real-transport run; None or (text, signature)"""
     where = "%s/%s" % (res["transport"], res["scenario"])
+    if res.get("fault"):
+        f = res["fault"]
+        where += " (%s raising OSError(%s) after %d bytes)" % (f["op"], f["errno"], f["after"])
     if not res.get("closed_in_time"):
-        return ("%s: side A never became closed within %.0f s after its peer went away (hook runs %d, tables %r)"
-                % (where, REAL_CEILING, res.get("hooks", 0), res.get("tables")), "C11:side-never-became-closed")
+        return ("%s: side A never became closed within %.0f s after %s (hook runs %d, tables %r, pending request: %s)"
+                % (where, REAL_CEILING, "its transport failed" if res.get("fault") else "its peer went away",
+                   res.get("hooks", 0), res.get("tables"), res.get("wait_out") or res.get("a_out")),
+                "C11:side-never-became-closed")
     if res["hooks_after"] != 1:
         return ("%s: disconnect hook ran %d times" % (where, res["hooks_after"]), "C11:hook-count")
     if res["tables"] is not None and sum(res["tables"]) != 0:
@@ -1283,8 +1520,28 @@ def real_oracle(res):
     return None
 
 
+REAL_FAULTS = [
+    # (transport, scenario, op, errno, bytes let through first: 0 = at the start, 2 = inside the 5-byte header, 8 = inside the body)
+    ("socket", "io_error_in_wait", "recv", "ECONNRESET", 0), ("socket", "io_error_in_wait", "recv", "EHOSTUNREACH", 0),
+    ("socket", "io_error_in_wait", "recv", "ENETDOWN", 2), ("socket", "io_error_in_wait", "recv", "ENOTCONN", 8),
+    ("socket", "io_error_in_wait", "recv", "EBADF", 2), ("socket", "io_error_in_wait", "recv", "EHOSTUNREACH", 8),
+    ("socket", "io_error_in_serve_all", "recv", "ECONNRESET", 8), ("socket", "io_error_in_serve_all", "recv", "EHOSTUNREACH", 0),
+    ("socket", "io_error_in_serve_all", "recv", "ENETDOWN", 0), ("socket", "io_error_in_serve_all", "recv", "ENOTCONN", 2),
+    ("socket", "io_error_in_serve_all", "recv", "EBADF", 8), ("socket", "io_error_in_serve_all", "recv", "EHOSTUNREACH", 2),
+    ("socket", "io_error_replying", "send", "EPIPE", 0), ("socket", "io_error_replying", "send", "ETIMEDOUT", 0),
+    ("socket", "io_error_replying", "send", "ETIMEDOUT", 3), ("socket", "io_error_replying", "send", "EHOSTUNREACH", 3),
+    ("socket", "io_error_replying", "send", "ECONNRESET", 0), ("socket", "io_error_replying", "send", "ENETDOWN", 8),
+    ("pipe", "io_error_in_wait", "recv", "EIO", 2), ("pipe", "io_error_in_serve_all", "recv", "EBADF", 0),
+    ("pipe", "io_error_in_serve_all", "recv", "EIO", 8), ("pipe", "io_error_replying", "send", "EPIPE", 0),
+    ("pipe", "io_error_replying", "send", "EIO", 3),
+]
+
+
 def real_cases():
-    return [(t, sc) for t in REAL_TRANSPORTS for sc in REAL_SCENARIOS]
+    cases = [dict(kind="real", transport=t, scenario=sc) for t in REAL_TRANSPORTS for sc in REAL_SCENARIOS]
+    for t, sc, op, en, after in REAL_FAULTS:
+        cases.append(dict(kind="real", transport=t, scenario=sc, fault=dict(op=op, errno=en, after=after)))
+    return cases
 
 
 # ---------------------------------------------------------------------------------------------- direct oracle
@@ -1412,17 +1669,17 @@ def oracle_search(ctx, corr, broken):
             return (dict(kind="fault", workload=wname, fault=f, fired=h.fired), res[0], res[1])
         return None
 
-    def check_real(transport, scenario):
-        res = run_real(transport, scenario)
+    def check_real(case):
+        res = run_real_case(case)
         r = real_oracle(res)
         if r and r[1] not in getattr(ctx, "known_signatures", set()):
-            return (dict(kind="real", transport=transport, scenario=scenario), r[0], r[1])
+            return (case, r[0], r[1])
         return None
 
     for d in corr.disagreements[:80]:
         cs = d.get("case", {})
         if cs.get("kind") == "real":
-            r = check_real(cs["transport"], cs["scenario"])
+            r = check_real(cs)
             if r:
                 return r
     for d in corr.disagreements[:80]:
@@ -1437,8 +1694,8 @@ def oracle_search(ctx, corr, broken):
         r = check(wname, None)
         if r:
             return r
-    for transport, scenario in real_cases():
-        r = check_real(transport, scenario)
+    for case in real_cases():
+        r = check_real(case)
         if r:
             return r
     for wname in WORKLOADS:
@@ -1457,7 +1714,7 @@ def oracle_search(ctx, corr, broken):
 
 def replay(case):
     if case.get("kind") == "real":
-        res = run_real(case["transport"], case["scenario"])
+        res = run_real_case(case)
         line = "life run " + " ".join(res["tokens"])
         try:
             got = run_driver([line], exe="drv_proto")[0]
